@@ -59,6 +59,9 @@ def obsOf (s : State) : List (String × J) :=
    ("ready", J.arr (s.ready.map fun t => J.str (descTask s 3 t))),
    ("slices", J.ofNats s.slices),
    ("enabled", J.ofNats (enabled s)),
+   ("next", J.arr ((List.range (s.fs.length + 2)).map fun t => J.arr [J.ofNat t, J.str (match siteOf s t with
+      | some x => siteName x
+      | none => "none")])),
    ("event", J.bool s.event), ("hub_pipe", J.ofNat s.hubPipe), ("clt_pipe", J.ofNat s.cltPipe),
    ("lock", J.bool s.lock),
    ("crashed", J.ofNats ((List.range s.fs.length).filter fun i =>
